@@ -149,7 +149,29 @@ def gen_case(rng, i):
     rng.shuffle(ann)
     rng.shuffle(mem)
     return {'hier': hier, 'ann': ann, 'mem': mem, 'cel': cel, 'defect': defect, 'top': [lab(hier[0], n) for n in nodes[hier[0]]],
-            'extra_cols': rng.random() < 0.5, 'seed': rng.randrange(10 ** 6)}
+            'extra_cols': rng.random() < 0.5, 'seed': rng.randrange(10 ** 6),
+            # identifiers that look like numbers and do not survive a numeric round trip (zero padded): they are text
+            'padded': rng.random() < 0.3}
+
+
+def _alias_s(case, a):
+    return f'{a:07d}' if case.get('padded') else str(a)
+
+
+def _cell_s(case, c):
+    return f'{c:06d}' if case.get('padded') else f'cell{c}'
+
+
+def _cell_inv(case, s_):
+    if case.get('padded'):
+        return int(s_) if (isinstance(s_, str) and len(s_) == 6 and s_.isdigit()) else -7
+    return int(s_[4:])
+
+
+def _alias_inv(case, s_):
+    if case.get('padded'):
+        return int(s_) if (isinstance(s_, str) and len(s_) == 7 and s_.isdigit()) else -7
+    return int(s_)
 
 
 def write_csvs(case, d):
@@ -178,12 +200,12 @@ def write_csvs(case, d):
     table(d / 'cluster_annotation_term.csv', ['label', 'cluster_annotation_term_set_label', 'parent_term_label',
                                                'parent_term_set_label'], ann_rows)
     mem_rows = [{'cluster_annotation_term_set_label': lev_s(r['lev']), 'cluster_annotation_term_set_name': f'set {r["levname"]}',
-                 'cluster_alias': str(r['alias']), 'cluster_annotation_term_label': lab_s(r['label']),
+                 'cluster_alias': _alias_s(case, r['alias']), 'cluster_annotation_term_label': lab_s(r['label']),
                  'cluster_annotation_term_name': f'name {r["name"]}'} for r in case['mem']]
     table(d / 'cluster_to_cluster_annotation_membership.csv',
           ['cluster_annotation_term_set_label', 'cluster_annotation_term_set_name', 'cluster_alias',
            'cluster_annotation_term_label', 'cluster_annotation_term_name'], mem_rows)
-    cel_rows = [{'cell_label': f'cell{r["cell"]}', 'cluster_alias': str(r['alias'])} for r in case['cel']]
+    cel_rows = [{'cell_label': _cell_s(case, r['cell']), 'cluster_alias': _alias_s(case, r['alias'])} for r in case['cel']]
     table(d / 'cell_metadata.csv', ['cell_label', 'cluster_alias'], cel_rows)
 
 
@@ -236,14 +258,14 @@ def _case(args):
                             rec['kids'].append([l, inv(k), sorted(inv(c) for c in v)])
                     else:
                         for k, v in tab.items():
-                            rec['cells'].append([inv(k), sorted(int(c[4:]) for c in v)])
+                            rec['cells'].append([inv(k), sorted(_cell_inv(case, c) for c in v)])
                 for L, tab in data.get('name_mapper', {}).items():
                     l = 0 if L == 'OTHERSET' else int(L[2:])
                     for k, v in tab.items():
                         if 'name' in v:
                             rec['names'].append([l, inv(k), int(v['name'].split()[1])])
                         if 'alias' in v:
-                            rec['aliases'].append([inv(k), int(v['alias'])])
+                            rec['aliases'].append([inv(k), _alias_inv(case, v['alias'])])
                 for L, nm in data.get('hierarchy_mapper', {}).items():
                     rec['levnames'].append([0 if L == 'OTHERSET' else int(L[2:]), int(nm.split()[1])])
             except (RuntimeError, KeyError) as e:
